@@ -30,4 +30,18 @@ class AttrsLike(AutoSerialize):
     __attrs_attrs__ = (_Field("fa"), _Field("fb"), _Field("fc"))
 
 
-CLASSES = {"Plain": Plain, "Node": Node, "Leaf": Leaf, "Other": Other, "AttrsLike": AttrsLike}
+import torch  # noqa: E402
+
+
+class Hybrid(AutoSerialize, torch.nn.Module):
+    """AutoSerialize + nn.Module hybrid (like the library's object/probe models): parameters,
+    a sub-module and plain attributes live side by side in __dict__."""
+
+    def __init__(self):
+        torch.nn.Module.__init__(self)
+
+    def forward(self, x):
+        return self.lin(x) + self._p1.sum()
+
+
+CLASSES = {"Hybrid": Hybrid, "Plain": Plain, "Node": Node, "Leaf": Leaf, "Other": Other, "AttrsLike": AttrsLike}
